@@ -210,27 +210,36 @@ fn fixed_state() -> std::collections::hash_map::RandomState {
     unsafe { std::mem::transmute::<(u64, u64), std::collections::hash_map::RandomState>((0x0123456789abcdef, 0xfedcba9876543210)) }
 }
 
-//@ props: C19
+// ATTEMPTED AND INTRACTABLE (unregistered, `props: ZZ`; C19 is listed as not_applicable). Measured:
+//   3 ops, symbolic indices, unwind 5 ........ > 30 min (killed)
+//   2 ops, symbolic indices, unwind 4 ........ unwinding assertion fails inside hashbrown (bound too small: reported inconclusive)
+//   2 ops, symbolic indices, unwind 6 ........ time-out at 30 min, no result
+//   3 ops, CONCRETE indices, unwind 6 ........ time-out at 30 min, no result
+// std::collections::HashMap (hashbrown RawTable + SipHash) is a "pointer-rich heap-backed container": a weak target.
+//@ props: ZZ
 //@ timeout: 1800
 //@ fns: rodbus_ffi::database::database_add_* / database_get_* / database_update_* / database_delete_* (add_entry, get_entry, update_entry, HashMap::remove), Database::new, server::<RequestHandlerWrapper as RequestHandler>::read_coil / read_discrete_input / read_holding_register / read_input_register
-//@ bounds: every script of 2 operations over {add, update, delete, get} x the four point types x two symbolic indices, compared with a reference Option<value> per (type, index); then a client read of both indices
+//@ bounds: unwind 6; every script of 3 operations over {add, update, delete, get} x the four point types x two CONCRETE indices (7 and 300; symbolic indices make hashbrown's probe loops unbounded for the unwinder) with symbolic values, compared with a reference Option<value> per (type, index); then a client read of both indices
 //@ stubs: std RandomState::new = fixed SipHash keys (getrandom is a syscall)
 //@ outside: atomicity of update transactions against concurrent client reads - a thread-schedule property; Kani is sequential (the argument is one mutex held across get_reply, not checkable here)
 #[kani::proof]
-#[kani::unwind(4)]
+#[kani::unwind(6)]
 #[kani::stub(std::hash::RandomState::new, fixed_state)]
 fn c19_database_map_semantics() {
     let mut db = Database::new();
     let p = &mut db as *mut Database;
-    let i0: u16 = kani::any();
-    let i1: u16 = kani::any();
-    kani::assume(i0 != i1);
+    // CONCRETE indices: SipHash of a constant key folds to a constant, so hashbrown's probe sequence is concrete and
+    // its loops unwind. With symbolic indices no unwind bound both terminates and passes the unwinding assertion
+    // (measured: unwind 4 too small, unwind 6 > 30 min). The map semantics do not depend on WHICH two distinct
+    // indices are used - the reference below is per index; values and the operation script stay symbolic.
+    let i0: u16 = 7;
+    let i1: u16 = 300;
     let ty: u8 = kani::any();
     kani::assume(ty < 4);
     // reference: Option<u16> per index for the chosen type (bools as 0/1)
     let mut r: [Option<u16>; 2] = [None, None];
     let mut step = 0;
-    while step < 2 {
+    while step < 3 {
         let op: u8 = kani::any();
         kani::assume(op < 4);
         let which: usize = if kani::any() { 0 } else { 1 };
